@@ -328,6 +328,49 @@ def run(ctx):
             if ok and meta['cls'] in ('spliced-prefix', 'bad-checksum'):
                 ctx.sample({'decode': meta['text'], 'corruption': meta['cls'], 'model': v[0]}, limit=6)
     ctx.second_pass()
+    concurrent_decoders(ctx, tbl)
+
+
+def concurrent_decoders(ctx, tbl):
+    """Decoding is a function of the text: several threads decoding texts of different kinds (prefix lengths 2..5) at the same time get what one thread gets."""
+    import threading
+    from pytezos.crypto.encoding import base58_decode
+    rows = [r for i, r in enumerate(tbl) if r[1] and r[3] > 0]
+    rows = sorted(rows, key=lambda r: (len(r[2]), r[0]))
+    picks = [rows[0], rows[len(rows) // 3], rows[2 * len(rows) // 3], rows[-1]]
+    work = []
+    for k, (hp, elen, bp, plen, _doc) in enumerate(picks):
+        p = bytes((37 * j + k) % 256 for j in range(plen))
+        work.append((b58ref.b58check(bp, p).encode(), p))
+    bad = []
+
+    def run(k):
+        text, want = work[k]
+        for _ in range(3000):
+            try:
+                got = bytes(base58_decode(text))
+            except Exception as e:   # noqa
+                got = 'raised %r' % (e,)
+            if got != want:
+                bad.append((text.decode(), want.hex(), got.hex() if isinstance(got, bytes) else got))
+                return
+    ts = [threading.Thread(target=run, args=(k % len(work),)) for k in range(8)]
+    import sys
+    old = sys.getswitchinterval()
+    sys.setswitchinterval(1e-5)
+    try:
+        for t in ts:
+            t.start()
+        for t in ts:
+            t.join()
+    finally:
+        sys.setswitchinterval(old)
+    ctx.count(('threads', len(ts)), nontrivial=True)
+    ctx.replayed += 8 * 3000
+    if bad:
+        text, want, got = bad[0]
+        ctx.mismatch('C09:concurrent:decode-differs', 'with 8 threads decoding texts of 4 kinds at the same time, base58_decode(%r) gave %s, the payload is %s (%d thread(s) saw a difference)' % (text, got, want, len(bad)),
+                     {'kind': 'threads'})
 
 
 def replay(ctx, rep):
@@ -338,6 +381,9 @@ def replay(ctx, rep):
         v = c['verdict']
         v = ('accept', v[1], bytes.fromhex(v[2])) if v[0] == 'accept' else ('reject',)
         ok = compare_dec(ctx, c['text'], v, c['cls'], c)
+    elif c.get('kind') == 'threads':
+        concurrent_decoders(ctx, table())
+        ok = not ctx.mismatches
     else:
         # table finding: re-derive it from the running code
         run(ctx)
